@@ -90,6 +90,15 @@ func c08Prelude() []zn.Stmt {
 			show(str("过"), v("X")), ret(v("X"))}},
 		// a type with a constructor, written before a type whose default property value creates
 		// an object of it with arguments: the constructor is attached by then
+		// an object that its own constructor hands to another holder is THE object 新建 yields
+		zn.Decl{Pairs: []zn.DeclPair{{Names: []string{"最近"}, Val: v("空")}}},
+		zn.Class{Name: "记", Props: []zn.Prop{{Name: "名", Val: num(0)}}},
+		zn.Func{Name: "记", Ctor: true, Params: []string{"甲"}, Body: []zn.Stmt{
+			zn.ExprStmt{E: zn.Assign{Target: this("名"), Val: v("甲")}}, zn.ExprStmt{E: zn.Assign{Target: v("最近"), Val: this("自身")}}}},
+		zn.Func{Name: "试记", Params: []string{"甲"}, Body: []zn.Stmt{
+			zn.Decl{Pairs: []zn.DeclPair{{Names: []string{"物"}, Val: zn.New{Class: "记", Args: []zn.Expr{v("甲")}}}}},
+			zn.ExprStmt{E: zn.Assign{Target: zn.Member{Root: v("物"), Name: "名"}, Val: bin("+", v("甲"), num(100))}},
+			ret(zn.Member{Root: v("最近"), Name: "名"})}},
 		zn.Class{Name: "角", Props: []zn.Prop{{Name: "横", Val: num(0)}, {Name: "纵", Val: num(0)}}},
 		zn.Func{Name: "角", Ctor: true, Params: []string{"甲", "乙"}, Body: []zn.Stmt{
 			zn.ExprStmt{E: zn.Assign{Target: this("横"), Val: v("甲")}}, zn.ExprStmt{E: zn.Assign{Target: this("纵"), Val: v("乙")}}}},
@@ -171,6 +180,7 @@ func c08Forms() []c08Form {
 		{"Q2之X", 0, func(a []zn.Expr) zn.Expr { return zn.Member{Root: zn.Var{Name: "Q2"}, Name: "X"} }},
 		{"O之数自减", 1, func(a []zn.Expr) zn.Expr { return mc1(zn.Member{Root: O, Name: "数"}, "自减", a[0]) }},
 		{"早返", 1, func(a []zn.Expr) zn.Expr { return call("早返", a[0]) }},
+		{"试记", 1, func(a []zn.Expr) zn.Expr { return call("试记", a[0]) }},
 		{"新建框", 0, func(a []zn.Expr) zn.Expr {
 			return zn.Member{Root: zn.Member{Root: zn.New{Class: "框"}, Name: "角"}, Name: "纵"}
 		}},
@@ -283,7 +293,7 @@ func c08Families(tier string) []c08Family {
 	var key []c08Form
 	for _, f := range all {
 		switch f.name {
-		case "一", "二", "二-1", "O加", "O推", "O访P", "O试P", "O无", "O之数", "P之表", "O加加", "新建型", "Q1升", "新建点", "斐6", "应用一", "应用倍", "试错", "三链", "斐得6", "早返", "新建框":
+		case "一", "二", "二-1", "O加", "O推", "O访P", "O试P", "O无", "O之数", "P之表", "O加加", "新建型", "Q1升", "新建点", "斐6", "应用一", "应用倍", "试错", "三链", "斐得6", "早返", "新建框", "试记":
 			key = append(key, f)
 		}
 	}
